@@ -112,6 +112,13 @@ HERMITIAN = {"momentum_integral", "angular_momentum_integral"}
 
 
 # ------------------------------------------------------------------------------- digests
+SHELL_PUBLIC = ("angmom", "coord", "coeffs", "exps", "coord_type", "icenter", "norm_cont")
+
+
+def _is_shell(o):
+    return all(hasattr(type(o), k) for k in ("angmom", "exps", "coeffs", "coord")) and hasattr(o, "norm_cont") and not isinstance(o, type)
+
+
 def digest(o, _depth=0):
     """Bitwise, structure-preserving digest of an argument object graph."""
     if isinstance(o, np.ndarray):
@@ -125,6 +132,10 @@ def digest(o, _depth=0):
         return (type(o).__name__, tuple(digest(x, _depth + 1) for x in o))
     if isinstance(o, dict):
         return ("dict", tuple((repr(k), digest(v, _depth + 1)) for k, v in sorted(o.items(), key=lambda kv: repr(kv[0]))))
+    if _is_shell(o):
+        # observable state of a shell = its public parameters (a correctly invalidated private memo is not a
+        # modification of the shell; a stale one is caught by the fresh-rebuild oracle of C19)
+        return ("shell", type(o).__name__, tuple((k, digest(getattr(o, k, None), _depth + 1)) for k in SHELL_PUBLIC))
     if hasattr(o, "__dict__") and not callable(o) and _depth < 6:
         return (
             "obj", type(o).__name__,
